@@ -81,7 +81,7 @@ CFG = {
                 MaxLen=2, MaxChunk=2, Retained=[1, 2]),
     "snap-3": C(Feat=["Snap", "Each"], UseKeys=["KA"], PutVals=["e", "a"], CasKeys=["KA"], CasExp=["abs", "b"], CasNew=["a", "b"],
                 MaxLen=3, MaxChunk=2, Retained=[1, 2]),
-    "snap-4": C(Feat=["Snap"], UseKeys=["KA", "KAF"], PutVals=["a"], CasKeys=["KA"], CasExp=["abs", "b"], CasNew=["a", "b"],
+    "snap-4": C(Feat=["Snap"], UseKeys=["KA"], PutVals=["a"], CasKeys=["KA"], CasExp=["abs", "b"], CasNew=["a", "b"],
                 MaxLen=4, MaxChunk=2, Retained=[1, 2, 3]),
     # C23: put-with-TTL / plain put / CAS / delete on one key, one tick, expiry cleanup, graceful stop, crash with a
     # current durable image, snapshot install
@@ -106,7 +106,7 @@ INV = {
 PROPS = {
     # sample: behaviours replayed per engine (0 = all enumerated behaviours); a RocksDB open costs ~100 ms here
     "C22": dict(cfgs={"quick": ["cas-3", "keys-3"], "thorough": ["cas-3", "cas-4", "cas2k-3", "keys-3", "keys-4"]},
-                sample={"quick": {"file": 1200, "rocks": 800}, "thorough": {"file": 40000, "rocks": 8000}}),
+                sample={"quick": {"file": 1000, "rocks": 600}, "thorough": {"file": 40000, "rocks": 8000}}),
     "C15": dict(cfgs={"quick": ["crash-2"], "thorough": ["crash-2", "crash-3", "crash2-3"]},
                 sample={"quick": {"file": 900, "rocks": 110}, "thorough": {"file": 20000, "rocks": 2000}}),
     "C16": dict(cfgs={"quick": ["snap-2"], "thorough": ["snap-2", "snap-3", "snap-4"]},
@@ -448,7 +448,7 @@ def _check(prop, tier, wd):
         "tlc_as_implemented_refutes": sorted(as_impl_refuted),
         "trace_records_judged": res["steps"],
         "conformance_divergences": divsum,
-        "timing_invalid_behaviours": len(set(res["invalid"])),
+        "timing_invalid_behaviours": len(set(res["invalid"])) if prop == "C23" else 0,   # only timed behaviours have a timing contract
         "monitor_failures_all_properties": len(res["viol"]),
         "known_findings_hit": sorted({"%s/%s/%s" % (k["property"], k["monitor"], k["cause"]) for k, _ in known_hits}),
         "exhaustive": gen_total == len(schedules),
